@@ -25,6 +25,7 @@ class Arr(E.Val):
     def __init__(self, n, at, np=False, taint=E.FALSE, ghost=None, name=None):
         self.n, self._at, self.np, self.taint, self.ghost, self.name = n, at, np, taint, ghost, name
         self._v = None
+        self.len_taint = None        # taint of the length alone (None: same as the elements')
 
     def at(self, eng, st, i):
         return self._at(eng, st, i)
@@ -230,7 +231,10 @@ class ArrayTheory:
             a = l.at(e, s, i) if la else l
             b = r.at(e, s, i) if ra else r
             return E.Engine.binop(e, s, op, a, b, node)
-        return Arr(base.n, at, np=True, taint=E.t_or(l.taint, r.taint), name='ew')
+        out = Arr(base.n, at, np=True, taint=E.t_or(l.taint, r.taint), name='ew')
+        if la and not ra and isinstance(op, ast.Div):
+            out.scaled_from = (l, r.real())
+        return out
 
     def arr_unary(self, st, fname, a):
         def at(e, s, i):
@@ -268,7 +272,23 @@ class ArrayTheory:
         av = self.arr_to_V(a)
         x = a.at(self, st, upto).real()
         st.assume(z3.And(f(av, z3.IntVal(0)) == 0, f(av, upto + 1) == f(av, upto) + x * x, f(av, upto) >= 0))
+        # lemmas (assumed, listed in the trusted base): closed form for constant-one arrays, scaling law
+        if a.name == 'ones':
+            st.assume(z3.Implies(upto >= 0, f(av, upto) == z3.ToReal(upto)))
+        if hasattr(a, 'scaled_from'):
+            base, c = a.scaled_from
+            self.sumsq(st, base, upto)
+            st.assume(z3.Implies(c != 0, f(av, upto) == f(self.arr_to_V(base), upto) / (c * c)))
         return E.Num(f(av, upto))
+
+    def count_len(self, st, a, k):
+        """spec function #{x in a : len(x) < k}; lemma (assumed, elementary counting): it is monotone in k with
+        increments #{x in a : len(x) == k}, lies in [0, len(a)]."""
+        f = self.uf('count_len_lt', V, I, I)
+        g = self.uf('count_len_eq', V, I, I)
+        av = self.arr_to_V(a)
+        st.assume(z3.And(f(av, k) >= 0, f(av, k) <= a.n, g(av, k) >= 0, f(av, k + 1) == f(av, k) + g(av, k), f(av, k + 1) <= a.n))
+        return E.Num(f(av, k))
 
     def sumf(self, st, a, upto):
         f = self.uf('psum', V, I, R)
@@ -283,10 +303,11 @@ class ArrayTheory:
             return E.Bound(o, name, taint=o.taint)
         if not isinstance(o, Arr):
             return NotImplemented
+        lt = o.taint if o.len_taint is None else o.len_taint
         if name == 'size':
-            return E.Num(o.n, taint=o.g('len_taint', o.taint))
+            return E.Num(o.n, taint=lt)
         if name == 'shape':
-            return E.Tup([E.Num(o.n, taint=o.g('len_taint', o.taint))])
+            return E.Tup([E.Num(o.n, taint=lt)])
         return E.Bound(o, name, taint=o.taint)
 
     def arr_getitem(self, st, o, k, node):
@@ -326,10 +347,12 @@ class ArrayTheory:
                 if hasattr(a0, 'nonneg'):
                     st.assume(a0.nonneg)
                 st.assume(a0.n >= 0)
-                return E.Num(a0.n, taint=a0.g('len_taint', a0.taint))
+                return E.Num(a0.n, taint=a0.taint if a0.len_taint is None else a0.len_taint)
             if name in ('np.array', 'np.asarray', 'list', 'tuple') and len(args) >= 1:
                 if isinstance(a0, Arr):
-                    return Arr(a0.n, a0._at, np=name.startswith('np.'), taint=a0.taint, ghost=a0.ghost, name=a0.name)
+                    out = Arr(a0.n, a0._at, np=name.startswith('np.'), taint=a0.taint, ghost=a0.ghost, name=a0.name)
+                    out._v = a0._v if a0._v is not None else self.arr_to_V(a0)     # same elements: same spec-level sequence
+                    return out
                 if isinstance(a0, E.Tup) and name.startswith('np.') and all(isinstance(x, E.Num) for x in a0.items):
                     return self.arr_from_tup(a0, np=True)
             if name in ('np.abs', 'abs', 'np.exp', 'np.log', 'np.sign') and isinstance(a0, Arr):
@@ -342,12 +365,20 @@ class ArrayTheory:
                 return E.Num(self.lse(st, a0), npy=True, taint=a0.taint)
             if name == 'np.append' and len(args) == 2 and isinstance(a0, Arr) and isinstance(args[1], E.Num):
                 v, n0 = args[1], a0.n
-                return Arr(n0 + 1, lambda e, s, i: e.ite(s, i < n0, a0.at(e, s, i), v), np=True, taint=tt, name='append')
+                out = Arr(n0 + 1, lambda e, s, i: e.ite(s, i < n0, a0.at(e, s, i), v), np=True, taint=tt, name='append')
+                out.len_taint = a0.taint if a0.len_taint is None else a0.len_taint
+                return out
             if name == 'np.linalg.norm' and isinstance(a0, Arr) and (len(args) == 1 or (isinstance(args[1], E.Num) and str(args[1].t) == '2')):
                 r_ = self.fresh('norm', R)
                 ss = self.sumsq(st, a0, a0.n).t
                 st.assume(z3.And(r_ >= 0, r_ * r_ == ss))
                 return E.Num(r_, npy=True, taint=tt)
+            if name == 'sum' and len(args) == 1 and isinstance(a0, Arr):
+                for kk in range(0, 5):
+                    self.sumf(st, a0, z3.IntVal(kk))
+                return E.Num(self.sumf(st, a0, a0.n).t, npy=a0.np, taint=tt)
+            if name == 'count_len_lt' and len(args) == 2 and isinstance(a0, Arr):
+                return self.count_len(st, a0, int_term(args[1]))
             if name == 'zip' and args and all(isinstance(a, Arr) for a in args):
                 return self.arr_zip(st, args)
             if name == 'np.ones' and len(args) == 1 and isinstance(a0, E.Num):
@@ -454,6 +485,14 @@ class ArrayTheory:
         self.add_qfact(st, q_cov, name='filter-cover')
         out = Arr(n2, lambda en, s, j: elt(en, s, it.at(en, s, pos(j))), np=is_np, taint=it.taint, name='filter')
         out.pos, out.inv, out.src = pos, inv, it
+        # definitional link to the counting spec function: [x for x in s if len(x) == k] has count_len_eq(s, k) elements
+        if len(g.ifs) == 1 and isinstance(g.target, ast.Name) and isinstance(e.elt, ast.Name) and e.elt.id == g.target.id:
+            c = g.ifs[0]
+            if isinstance(c, ast.Compare) and len(c.ops) == 1 and isinstance(c.ops[0], ast.Eq) and \
+                    isinstance(c.left, ast.Call) and ast.unparse(c.left) == 'len(%s)' % g.target.id:
+                kv = self.ev(st, c.comparators[0])
+                if isinstance(kv, E.Num):
+                    st.assume(n2 == self.uf('count_len_eq', V, I, I)(self.arr_to_V(it), int_term(kv)))
         return out
 
 
